@@ -12,14 +12,24 @@ RULE = ('exhaustive matrices over {-1,0,1}: all 1x1, 2x2, 2x3 (+ every right-han
         'triangular non-singular, random A (mostly not divisible), singular B; plus a malformed stream (ragged rows, empty matrices, '
         'shape mismatches, p not prime / entries outside [0,p)) that is compared with the model only. '
         'non-trivial = n >= 2 and not the all-zero matrix')
-PROVED = []
-NOT_PROVED = ['all clauses (first version: executable model + correspondence + oracles only)']
+PROVED = [
+    'determinant_spec [P]: every value returned by determinant is the Leibniz determinant (MathComp \\det) of the matrix; determinant_returns [P]: it returns on every square matrix',
+    'inv_spec [P]: Ok b -> b*a = 1 and a*b = 1; inv_err_spec [P]: Err -> det a = 0; inv_nonsingular / inv_singular_spec [P]: on square input, Ok iff det != 0, Err iff det = 0, never a panic',
+    'solve_spec [P]: Ok x -> x*a = b (the orientation the code uses: column operations); solve_err_spec [P]: Err -> det a = 0; solve_nonsingular [P]: square, det != 0 -> Ok',
+    'mul_inv_from_right_exact_spec [P]: Ok c -> c*b = a over Z; mul_inv_from_right_exact_err [P]: Err -> det b = 0',
+]
+NOT_PROVED = [
+    'iim_spec, supplement_spec, image_mod_p_spec (checked by the independent oracles on every explored input)',
+    'mul_inv_from_right_exact returns Ok whenever an integer quotient exists (oracle only)',
+]
 
 CLAIM = dict(
-    technique='Coq proof about the Gallina model of the seven routines + extracted-model-vs-implementation correspondence',
-    text='The model (coq/Model/LinAlg.v) reproduces the routines statement by statement including Rust bounds-check panics on ragged input; '
-         'it is tied to /repo by running the extracted model and impl_svc on the same inputs.',
-    note='first version: no theorem yet; every clause is checked by an independent Fraction oracle on every explored input',
+    technique='Coq proof about the Gallina model of the seven routines (generic over a MathComp fieldType, instantiated at Qc) + extracted-model-vs-implementation correspondence',
+    text='coq/Props/C18.v: for all rational matrices (no size bound) determinant = Leibniz determinant; inv/solve return the exact inverse/solution (x*A = b) or Err, '
+         'Err exactly when det = 0, and never panic on square input; exact right division returns C with C*B = A. The model (coq/Model/LinAlg.v) reproduces the routines '
+         'statement by statement including Rust bounds-check panics on ragged input; it is tied to /repo by running the extracted model and impl_svc on the same inputs.',
+    note='iim / supplement_basis / image_mod_p: model + correspondence + independent Fraction oracles on every explored input, no theorem yet; '
+         'BigRational arithmetic is taken as Qc, BigInt as Z',
     ref='DESIGN.md section 4, C18')
 
 # ---------------------------------------------------------------- exact reference linear algebra (independent of the model)
@@ -282,9 +292,9 @@ def norm(A):
 
 def nz(A): return len(A) >= 2 and any(x != 0 for r in A for x in r)
 
-def c_det(A, tag): return Case('la_det', line('la_det', A), oracle=o_det(A), nontrivial=nz(A), tag=tag, always_oracle=True)
-def c_inv(A, tag): return Case('la_inv', line('la_inv', A), oracle=o_inv(A), nontrivial=nz(A), tag=tag, always_oracle=True)
-def c_solve(A, b, tag): return Case('la_solve', line('la_solve', A, b), oracle=o_solve(A, b), nontrivial=nz(A), tag=tag, always_oracle=True)
+def c_det(A, tag): return Case('la_det', line('la_det', A), oracle=o_det(A), nontrivial=nz(A), tag=tag)
+def c_inv(A, tag): return Case('la_inv', line('la_inv', A), oracle=o_inv(A), nontrivial=nz(A), tag=tag)
+def c_solve(A, b, tag): return Case('la_solve', line('la_solve', A, b), oracle=o_solve(A, b), nontrivial=nz(A), tag=tag)
 def c_iim(M, V, tag):
     return Case('la_iim', line('la_iim', M, V), oracle=o_iim(M, V), nontrivial=len(M[0]) >= 2, tag=tag + ':' + iim_expect(M, V), always_oracle=True)
 def c_supp(M, tag):
